@@ -366,6 +366,13 @@ func (t *Meta) UpdateIrreversibleBlockHeight(nextIrreversibleBlockHeight int64, 
 	return nil
 }
 
+// ResetMetaTmp 丢弃MetaTmp里尚未写盘的变更，恢复为已生效的Meta
+func (t *Meta) ResetMetaTmp() {
+	t.MutexMeta.Lock()
+	defer t.MutexMeta.Unlock()
+	t.MetaTmp = proto.Clone(t.Meta).(*pb.UtxoMeta)
+}
+
 func (t *Meta) UpdateNextIrreversibleBlockHeight(blockHeight int64, curIrreversibleBlockHeight int64, curIrreversibleSlideWindow int64, batch kvdb.Batch) error {
 	// negative number for irreversible slide window is not allowed.
 	if curIrreversibleSlideWindow < 0 {
